@@ -223,6 +223,15 @@ def counted_list(n):
   return [n, n + 1]
 
 
+FALSY = [None, 0, '', (), False]
+
+
+def counted_falsy(n):
+  """A counted call whose result is one of the falsy values (a cached / held value may be None, 0, '' ...)."""
+  _count('counted_falsy')
+  return FALSY[n % len(FALSY)]
+
+
 def raise_value_error(msg):
   _count('raise_value_error')
   raise ValueError(msg)
